@@ -123,13 +123,16 @@ CHECKS["C18"] = dict(
          "summary_names_once); witnesses that the unchanged code emits duplicate ids (dev_D24_sql: complete model run on the AST of a "
          "two-branch UNION whose derived tables share an alias; dev_D24, dev_D24_class, dev_D24_node_vs_parent, edge_id_clash_witness). "
          "Tied to the code by harness/c18.py: every SQL of the repository's tests + TPC-DS and generated statements/scripts through the real "
-         "LineageRunner at both levels and through POST /lineage, a structural oracle on the implementation alone, exact comparison with the "
-         "model's export (entries, order, edge ids, summary text), and io.to_cytoscape on hand-made graphs in every node order",
+         "LineageRunner at both levels and through POST /lineage; per result a structural oracle on the implementation alone and an EXACT "
+         "comparison (entries, order, edge ids, summary text) with the model run on the implementation's own combined graph (driver command "
+         "exportfull: views, both exports, role lists, summary); generated inputs also end to end through the walk model; io.to_cytoscape on "
+         "hand-made graphs in every node order",
     design_ref="DESIGN.md §5 C18, §6 D24",
     note=TB + ". Modelled, not verified: networkx subgraph views (their iteration order is taken from the implementation's output and the "
          "theorems hold for every order). The walk's statement holders satisfy the graph invariants: checked per generated case at run "
-         "time, not proved for Model/Walk.lean. Statements with a subquery in a select item and CREATE TABLE column lists under dialects "
-         "with a different tree shape are compared on the summary only (oracle still applies). Known finding D24 (duplicate node ids when "
+         "time, not proved for Model/Walk.lean. End-to-end differences (walk model vs analysis; summary-only for select-item subqueries "
+         "and dialect-specific CREATE TABLE trees) are reported in the evidence and attributed to C01/C02 when the comparison on the "
+         "implementation's own graph is exact. Known finding D24 (duplicate node ids when "
          "two distinct nodes/owners print alike).",
     technique="Lean 4 proof over a hand-written model + differential correspondence (model driver vs real LineageRunner / WSGI app / "
               "io.to_cytoscape) with a model-independent structural oracle",
